@@ -5,7 +5,7 @@ import csv
 import os
 import sys
 
-sys.path.insert(0, "/repo")
+sys.path.insert(0, __import__("os").environ.get("VERIF_REPO", "/repo"))
 from fibertree import Payload, Tensor  # noqa: E402
 from fibertree.core.metrics import Metrics  # noqa: E402
 from fibertree.model.compute import Compute  # noqa: E402
